@@ -1,58 +1,4 @@
 // ---- shared specification: SliceConstructor (spec functions and lemmas; no executable code) ----
-pub mod count_lemmas {
-use vstd::prelude::*;
-pub open spec fn count_true(s: Seq<bool>) -> nat
-    decreases s.len(),
-{
-    if s.len() == 0 { 0 } else { count_true(s.drop_last()) + if s.last() { 1nat } else { 0nat } }
-}
-
-pub proof fn lemma_count_true_bounds(s: Seq<bool>)
-    ensures
-        count_true(s) <= s.len(),
-        count_true(s) == s.len() <==> (forall|i: int| 0 <= i < s.len() ==> s[i]),
-    decreases s.len(),
-{
-    if s.len() > 0 {
-        lemma_count_true_bounds(s.drop_last());
-        assert(forall|i: int| 0 <= i < s.len() - 1 ==> s.drop_last()[i] == s[i]);
-        if count_true(s) == s.len() {
-            assert(s.last());
-            assert forall|i: int| 0 <= i < s.len() implies s[i] by {
-                if i < s.len() - 1 { assert(s.drop_last()[i]); }
-            }
-        }
-        if (forall|i: int| 0 <= i < s.len() ==> s[i]) {
-            assert(forall|i: int| 0 <= i < s.len() - 1 ==> s.drop_last()[i]);
-        }
-    }
-}
-
-pub proof fn lemma_count_true_set(s: Seq<bool>, i: int)
-    requires 0 <= i < s.len(), !s[i],
-    ensures count_true(s.update(i, true)) == count_true(s) + 1,
-    decreases s.len(),
-{
-    if i == s.len() - 1 {
-        assert(s.update(i, true).drop_last() =~= s.drop_last());
-    } else {
-        lemma_count_true_set(s.drop_last(), i);
-        assert(s.update(i, true).drop_last() =~= s.drop_last().update(i, true));
-    }
-}
-
-pub broadcast proof fn lemma_count_true_all_false(s: Seq<bool>)
-    requires forall|i: int| 0 <= i < s.len() ==> !s[i],
-    ensures #[trigger] count_true(s) == 0,
-    decreases s.len(),
-{
-    if s.len() > 0 {
-        lemma_count_true_all_false(s.drop_last());
-    }
-}
-
-} // mod count_lemmas
-pub use count_lemmas::*;
 
 /// upper limit on the slice count a constructor is created with (Packet::from_bytes enforces it on the wire)
 pub open spec fn max_slices() -> int { 1_000_000 }
@@ -71,7 +17,7 @@ impl SliceConstructor {
 
     /// the bytes slice `i` of message `m` carries on the wire
     pub open spec fn slice_of(m: Seq<u8>, n: int, i: int) -> Seq<u8> {
-        m.subrange(i * 1200, if i == n - 1 { m.len() as int } else { (i + 1) * 1200 })
+        slice_bytes(m, n, i)
     }
 
     /// `m` is a message the peer could have cut into `num_slices` slices
